@@ -84,6 +84,32 @@ def alias_clause(ctx, kind, payload, case, op, base_res, model, reg):
                                aliased=repr(o.res)[:200] if o.exc is None else repr(o.exc)), model, reg)
 
 
+def inplace_clause(ctx, kind, payload, case, op, model_name, reg):
+    """history on the SAME objects: call, edit one rating's mu and another's sigma IN PLACE (as rate() itself does), call
+    again through the same model with the same lists - the second result must be, bit for bit, what a fresh model returns
+    for fresh objects holding the edited values (a result remembered per line-up must not survive the edit)"""
+    model, teams, _ = build(case)
+    first = observe(model, op, teams)
+    if first.exc is not None:
+        return
+    beta = case["cfg"]["beta"]
+    edited = [[list(p) for p in t] for t in case["teams"]]
+    m0 = edited[0][0][0]
+    edited[0][0][0] = m0 + 0.75 * beta if m0 + 0.75 * beta <= 20 * beta else m0 - 0.75 * beta  # stays inside the stated box
+    edited[-1][-1][1] = min(edited[-1][-1][1] * 1.5 + 0.01 * beta, 10 * beta)
+    teams[0][0].mu = edited[0][0][0]
+    teams[-1][-1].sigma = edited[-1][-1][1]
+    again = observe(model, op, teams)
+    fresh = call_pred(dict(case, flavour=None), op, edited)
+    ctx.ev("in-place-edit==fresh")
+    if again.exc is not None or fresh.exc is not None or repr(again.res) != repr(fresh.res):
+        ctx.violation("in-place-edit==fresh", kind, payload,
+                      dict(op=op, app_types=case.get("flavour"), after_edit=repr(again.res)[:200] if again.exc is None else repr(again.exc),
+                           fresh=repr(fresh.res)[:200] if fresh.exc is None else repr(fresh.exc), before_edit=repr(first.res)[:120]),
+                      model_name, reg)
+    scribble(again.res)
+
+
 def team_mu(teams):
     return [math.fsum(p[0] for p in t) for t in teams]
 
